@@ -327,13 +327,14 @@ def check_numpy(ctx, rng, data, rate, width, channels):
     ctx.count("numpy_values_checked", channels * n)
 
 
-def run_shard(ctx):
+def run_shard(ctx, upto=None):
     _install_hook()
     conf = TIERS[ctx.tier]
     rng = ctx.rng("cases")
     tmp = tempfile.mkdtemp(prefix="vf-c18-")
     try:
-        for i in range(conf["random"]):
+        for i in range(conf["random"] if upto is None else upto + 1):
+            ctx.replay_info = {"shard": ctx.shard, "nshards": ctx.nshards, "seed": ctx.seed, "i": i}
             data, rate, width, channels = gen_audio(rng)
             if i % 7 == 0:  # extremes for the numpy / byte-order check
                 lim = 2 ** (8 * width - 1)
@@ -354,8 +355,13 @@ def run_shard(ctx):
 
 
 def replay(ctx, case):
-    ctx.note("C18 witnesses are self-describing; re-running the seeded workload of shard 0")
-    run_shard(ctx)
+    import sys
+
+    from ..ctx import replay_by_index
+
+    if not replay_by_index(ctx, sys.modules[__name__], case):
+        ctx.note("witness carries no replay index; re-running the seeded workload of shard 0")
+        run_shard(ctx)
 
 
 def inconclusive(merged, tier):
